@@ -68,7 +68,7 @@ func TestMain(m *testing.M) {
 	cliCert = ca.Issue(glue.LeafSpec{CN: "exporter", Client: true})
 	if rp := ev.LoadReplay(); rp != nil {
 		if rp.Phase == "slow_consumer" {
-			ev.RunReplay(rp, runSlowConsumer)
+			ev.RunReplay(rp, runSlowConsumerJudged)
 		}
 		ev.RunReplay(rp, func(c Case) *ev.Failure { f, _ := runCase(c); return f })
 	}
@@ -558,8 +558,27 @@ type SlowConsumer struct {
 	IntervalMs int    `json:"interval_ms"`
 }
 
+// slowLost: a udp run of runSlowConsumer ended without all messages delivered.
+var slowLost string
+
+func runSlowConsumerJudged(c SlowConsumer) *ev.Failure {
+	for attempt := 1; ; attempt++ {
+		slowLost = ""
+		if f := runSlowConsumer(c); f != nil || slowLost == "" {
+			return f
+		}
+		if attempt == 3 {
+			return ev.Failf("three times in a row: %s", slowLost)
+		}
+	}
+}
+
 func runSlowConsumer(c SlowConsumer) *ev.Failure {
 	in := collector.CollectorInput{Address: "127.0.0.1:0", Protocol: "tcp", MaxBufferSize: 65535}
+	proto := "tcp"
+	if c.Transport == "udp" {
+		in.Protocol, proto = "udp", "udp"
+	}
 	var tlsCfg *exporter.ExporterTLSClientConfig
 	if c.Transport == "tls" {
 		in.IsEncrypted, in.ServerCert, in.ServerKey = true, srvCert.CertPEM, srvCert.KeyPEM
@@ -603,8 +622,8 @@ func runSlowConsumer(c SlowConsumer) *ev.Failure {
 		}
 	}()
 	defer func() { cp.Stop(); close(stopDrain); <-drained }()
-	ep, err := exporter.InitExportingProcess(exporter.ExporterInput{CollectorAddress: cp.GetAddress().String(), CollectorProtocol: "tcp", ObservationDomainID: 3,
-		TLSClientConfig: tlsCfg, CheckConnInterval: time.Duration(c.IntervalMs) * time.Millisecond})
+	ep, err := exporter.InitExportingProcess(exporter.ExporterInput{CollectorAddress: cp.GetAddress().String(), CollectorProtocol: proto, ObservationDomainID: 3,
+		TLSClientConfig: tlsCfg, CheckConnInterval: time.Duration(c.IntervalMs) * time.Millisecond, TempRefTimeout: 3600})
 	if err != nil {
 		return nil
 	}
@@ -630,12 +649,17 @@ func runSlowConsumer(c SlowConsumer) *ev.Failure {
 			return ev.Failf("over %s, send %d of %d (%d bytes each) failed while the collector's application was not taking messages for %d ms (connection check every %d ms): %v - back-pressure is not an error", c.Transport, k, c.N, c.Size, c.PauseMs, c.IntervalMs, err)
 		}
 	}
-	for end := time.Now().Add(60 * time.Second); ; time.Sleep(2 * time.Millisecond) {
+	for end := time.Now().Add(60*time.Second + time.Duration(c.PauseMs)*time.Millisecond); ; time.Sleep(2 * time.Millisecond) {
 		mu.Lock()
 		n := len(seqs)
 		mu.Unlock()
 		if n >= 1+c.N {
 			break
+		}
+		if c.Transport == "udp" && time.Now().After(end.Add(-55*time.Second).Add(time.Duration(c.PauseMs)*time.Millisecond)) {
+			// datagrams can be lost: the caller repeats the scenario, three misses in a row count
+			slowLost = fmt.Sprintf("over udp, %d of %d messages were delivered after the collector's application had paused for %d ms (every SendSet succeeded, %d datagrams of %d bytes waited in the socket)", n, 1+c.N, c.PauseMs, c.N, c.Size)
+			return nil
 		}
 		if time.Now().After(end) {
 			return ev.Failf("over %s, %d of %d messages were delivered after the collector's application had paused for %d ms (every SendSet succeeded)", c.Transport, n, 1+c.N, c.PauseMs)
@@ -653,12 +677,19 @@ func runSlowConsumer(c SlowConsumer) *ev.Failure {
 
 func TestC01(t *testing.T) {
 	// every run: the application behind the collector pauses while the exporter keeps sending
-	slow := []SlowConsumer{{Transport: "tcp", PauseMs: 500, N: 250, Size: 60000, IntervalMs: 10}, {Transport: "tls", PauseMs: 400, N: 200, Size: 60000, IntervalMs: 5}}
+	slow := []SlowConsumer{{Transport: "tcp", PauseMs: 500, N: 250, Size: 60000, IntervalMs: 10}, {Transport: "tls", PauseMs: 400, N: 200, Size: 60000, IntervalMs: 5},
+		// a few small datagrams wait in the socket while the application is busy for six seconds
+		{Transport: "udp", PauseMs: 6500, N: 4, Size: 300}}
+	if rec.Thorough() && ev.Shard() <= 1 {
+		// ... and for more than half a minute (hand-off time limits of 10 and 30 s)
+		slow = append(slow, SlowConsumer{Transport: "tcp", PauseMs: 33000, N: 6, Size: 1000, IntervalMs: 1000}, SlowConsumer{Transport: "tls", PauseMs: 33000, N: 6, Size: 1000, IntervalMs: 1000},
+			SlowConsumer{Transport: "udp", PauseMs: 33000, N: 4, Size: 300}, SlowConsumer{Transport: "tcp", PauseMs: 12500, N: 120, Size: 60000, IntervalMs: 1000})
+	}
 	slowFails := make([]*ev.Failure, len(slow))
 	var sw sync.WaitGroup
 	for k := range slow {
 		sw.Add(1)
-		go func(k int) { defer sw.Done(); slowFails[k] = runSlowConsumer(slow[k]) }(k)
+		go func(k int) { defer sw.Done(); slowFails[k] = runSlowConsumerJudged(slow[k]) }(k)
 	}
 	sw.Wait()
 	for k, c := range slow {
